@@ -23,7 +23,7 @@ open Spec
 
 /-- the two facts the theorems are proved for BOTH values of: HAS_PROC_SMAPS_ROLLUP (host dependent) and whether
     is_running() carries the repair of finding C03-denied-probe-reads-as-reuse (`Cfg.probeLenient`; false for the
-    source as it is, true once fixes/C03-denied-probe.diff has landed) -/
+    source as it is, true once the candidate fixes/C03-denied-probe-lenient.rejected.diff (not proposed: it conflicts with C05/C01, see notes/C03.md) has landed) -/
 structure Host where
   rollup : Bool
   lenient : Bool
